@@ -88,26 +88,26 @@ Qed.
 
 (* ------------------------------------------------------------------ process_raw_token, closed forms *)
 
-Lemma process_raw_spec : forall p ds, digits ds ->
-  process_raw p ds =
+Lemma process_raw_old_spec : forall p ds, digits ds ->
+  process_raw_old p ds =
   if (MAXI32_PLUS1 <? dec ds) || ((dec ds =? MAXI32_PLUS1) && is_none p) then mkOut true false
   else if (dec ds =? MAXI32_PLUS1) && is_minus p then mkOut false true
   else mkOut false false.
 Proof.
-  intros p ds Hd. unfold process_raw. rewrite (parse_i64_spec ds Hd).
+  intros p ds Hd. unfold process_raw_old. rewrite (parse_i64_spec ds Hd).
   destruct (Z.leb_spec (dec ds) I64_MAX) as [H|H]; [reflexivity|].
   assert (Hlt : MAXI32_PLUS1 <? dec ds = true)
     by (apply Z.ltb_lt; unfold MAXI32_PLUS1, I32_MAX, I64_MAX in *; lia).
   rewrite Hlt. reflexivity.
 Qed.
 
-Lemma process_raw_patched_spec : forall p ds, digits ds ->
-  process_raw_patched p ds =
+Lemma process_raw_spec : forall p ds, digits ds ->
+  process_raw p ds =
   if (MAXI32_PLUS1 <? dec ds) || ((dec ds =? MAXI32_PLUS1) && negb (is_minus p)) then mkOut true false
   else if (dec ds =? MAXI32_PLUS1) && is_minus p then mkOut false true
   else mkOut false false.
 Proof.
-  intros p ds Hd. unfold process_raw_patched. rewrite (parse_i64_spec ds Hd).
+  intros p ds Hd. unfold process_raw. rewrite (parse_i64_spec ds Hd).
   destruct (Z.leb_spec (dec ds) I64_MAX) as [H|H]; [reflexivity|].
   assert (Hlt : MAXI32_PLUS1 <? dec ds = true)
     by (apply Z.ltb_lt; unfold MAXI32_PLUS1, I32_MAX, I64_MAX in *; lia).
@@ -124,52 +124,60 @@ Ltac cmp_cases :=
   | H : context [?a <=? ?b] |- _ => destruct (Z.leb_spec a b)
   end.
 
-(* ------------------------------------------------------------------ the patched gate is exact *)
+(* ------------------------------------------------------------------ the gate of the current lexer is exact *)
 
-Lemma lit_gate_patched : forall p ds, digits ds ->
-  (lit_ok_patched p ds = true <-> in_range p ds).
+Lemma lit_gate : forall p ds, digits ds ->
+  (lit_ok p ds = true <-> in_range p ds).
 Proof.
-  intros p ds Hd. unfold lit_ok_patched, lit_ok_of, in_range.
-  rewrite (process_raw_patched_spec p ds Hd).
+  intros p ds Hd. unfold lit_ok, lit_ok_of, in_range.
+  rewrite (process_raw_spec p ds Hd).
   unfold MAXI32_PLUS1, I32_MAX. destruct p; simpl; cmp_cases; simpl; split; intros H';
     try discriminate; try reflexivity; try lia;
     try (destruct H' as [H'|[H' H'']]; try discriminate; lia);
     try (right; split; [reflexivity|lia]).
 Qed.
 
-Lemma lit_value_patched_exact : forall p ds, digits ds -> lit_ok_patched p ds = true ->
-  lit_value_patched p ds = denoted p ds /\ I32_MIN <= lit_value_patched p ds <= I32_MAX.
+Lemma lit_value_exact : forall p ds, digits ds -> lit_ok p ds = true ->
+  lit_value p ds = denoted p ds /\ I32_MIN <= lit_value p ds <= I32_MAX.
 Proof.
   intros p ds Hd. pose proof (dec_nonneg ds (proj2 Hd)) as Hnn.
-  unfold lit_ok_patched, lit_value_patched, lit_ok_of, lit_value_of, denoted, min_form.
-  rewrite (process_raw_patched_spec p ds Hd).
+  unfold lit_ok, lit_value, lit_ok_of, lit_value_of, denoted, min_form.
+  rewrite (process_raw_spec p ds Hd).
   unfold MAXI32_PLUS1, I32_MAX, I32_MIN in *.
   destruct p; simpl; cmp_cases; simpl; intros H'; try discriminate;
     try (rewrite (parse_i32_pos_spec ds Hd)); try (rewrite (parse_i32_neg_spec ds Hd));
     unfold I32_MAX, I32_MIN; cmp_cases; try lia.
 Qed.
 
-(* ------------------------------------------------------------------ the pinned gate *)
+(* the clause of the property: a literal outside the 32-bit range is diagnosed, wherever it stands *)
+Lemma lit_out_of_range_rejected : forall p ds, digits ds -> ~ in_range p ds ->
+  o_error (process_raw p ds) = true.
+Proof.
+  intros p ds Hd Hn. destruct (o_error (process_raw p ds)) eqn:E; [reflexivity|].
+  exfalso. apply Hn. apply (lit_gate p ds Hd). unfold lit_ok, lit_ok_of. rewrite E. reflexivity.
+Qed.
+
+(* ------------------------------------------------------------------ HISTORICAL: the gate before the repair *)
 
 (* outside the known class the pinned gate is exact as well *)
-Lemma lit_gate_outside_known : forall p ds, digits ds -> Known_C06_lit p ds = false ->
-  (lit_ok p ds = true <-> in_range p ds).
+Lemma old_lit_gate_outside_known : forall p ds, digits ds -> Known_C06_lit p ds = false ->
+  (lit_ok_old p ds = true <-> in_range p ds).
 Proof.
-  intros p ds Hd. unfold lit_ok, lit_ok_of, in_range, Known_C06_lit.
-  rewrite (process_raw_spec p ds Hd).
+  intros p ds Hd. unfold lit_ok_old, lit_ok_of, in_range, Known_C06_lit.
+  rewrite (process_raw_old_spec p ds Hd).
   unfold MAXI32_PLUS1, I32_MAX. destruct p; simpl; cmp_cases; simpl; intros HK; split; intros H';
     try discriminate; try reflexivity; try lia;
     try (destruct H' as [H'|[H' H'']]; try discriminate; lia);
     try (right; split; [reflexivity|lia]).
 Qed.
 
-Lemma lit_value_outside_known : forall p ds, digits ds -> Known_C06_lit p ds = false ->
-  lit_ok p ds = true ->
-  lit_value p ds = denoted p ds /\ I32_MIN <= lit_value p ds <= I32_MAX.
+Lemma old_lit_value_outside_known : forall p ds, digits ds -> Known_C06_lit p ds = false ->
+  lit_ok_old p ds = true ->
+  lit_value_old p ds = denoted p ds /\ I32_MIN <= lit_value_old p ds <= I32_MAX.
 Proof.
   intros p ds Hd. pose proof (dec_nonneg ds (proj2 Hd)) as Hnn.
-  unfold lit_ok, lit_value, lit_ok_of, lit_value_of, denoted, min_form, Known_C06_lit.
-  rewrite (process_raw_spec p ds Hd).
+  unfold lit_ok_old, lit_value_old, lit_ok_of, lit_value_of, denoted, min_form, Known_C06_lit.
+  rewrite (process_raw_old_spec p ds Hd).
   unfold MAXI32_PLUS1, I32_MAX, I32_MIN in *.
   destruct p; simpl; cmp_cases; simpl; intros HK H'; try discriminate;
     try (rewrite (parse_i32_pos_spec ds Hd)); try (rewrite (parse_i32_neg_spec ds Hd));
@@ -177,40 +185,40 @@ Proof.
 Qed.
 
 (* the gate never rejects a literal that is in range (no exclusion needed for this direction) *)
-Lemma lit_gate_no_false_alarm : forall p ds, digits ds -> in_range p ds -> lit_ok p ds = true.
+Lemma old_lit_gate_no_false_alarm : forall p ds, digits ds -> in_range p ds -> lit_ok_old p ds = true.
 Proof.
-  intros p ds Hd. unfold lit_ok, lit_ok_of, in_range.
-  rewrite (process_raw_spec p ds Hd).
+  intros p ds Hd. unfold lit_ok_old, lit_ok_of, in_range.
+  rewrite (process_raw_old_spec p ds Hd).
   unfold MAXI32_PLUS1, I32_MAX. intros [H|[-> H]]; simpl; cmp_cases; simpl; try reflexivity; try lia.
 Qed.
 
 (* inside the class the pinned gate is always wrong, and the value read is 0 *)
-Lemma lit_gate_wrong_in_known : forall p ds, digits ds -> Known_C06_lit p ds = true ->
-  lit_ok p ds = true /\ ~ in_range p ds /\ lit_value p ds = 0 /\ denoted p ds = 2147483648.
+Lemma old_lit_gate_wrong_in_known : forall p ds, digits ds -> Known_C06_lit p ds = true ->
+  lit_ok_old p ds = true /\ ~ in_range p ds /\ lit_value_old p ds = 0 /\ denoted p ds = 2147483648.
 Proof.
   intros p ds Hd. unfold Known_C06_lit. destruct p; simpl; try discriminate.
   destruct (Z.eqb_spec (dec ds) MAXI32_PLUS1) as [E|]; [|discriminate]. intros _.
-  unfold lit_ok, lit_value, lit_ok_of, lit_value_of, in_range, denoted, min_form.
-  rewrite (process_raw_spec POther ds Hd). rewrite E. simpl.
+  unfold lit_ok_old, lit_value_old, lit_ok_of, lit_value_of, in_range, denoted, min_form.
+  rewrite (process_raw_old_spec POther ds Hd). rewrite E. simpl.
   rewrite (parse_i32_pos_spec ds Hd). rewrite E. simpl.
   repeat split. intros [H|[H _]]; [unfold MAXI32_PLUS1, I32_MAX in H; lia | discriminate].
 Qed.
 
 Definition W2147483648 : list Z := [2;1;4;7;4;8;3;6;4;8].
 
-Lemma lit_gate_refuted : exists p ds,
-  digits ds /\ lit_ok p ds = true /\ ~ in_range p ds /\ lit_value p ds = 0 /\ denoted p ds = 2147483648.
+Lemma old_lit_gate_refuted : exists p ds,
+  digits ds /\ lit_ok_old p ds = true /\ ~ in_range p ds /\ lit_value_old p ds = 0 /\ denoted p ds = 2147483648.
 Proof.
   exists POther, W2147483648.
   assert (Hd : digits W2147483648) by (apply digitsb_ok; vm_compute; reflexivity).
-  split; [exact Hd|]. apply lit_gate_wrong_in_known; [exact Hd | vm_compute; reflexivity].
+  split; [exact Hd|]. apply old_lit_gate_wrong_in_known; [exact Hd | vm_compute; reflexivity].
 Qed.
 
 (* the patch changes the gate exactly on the known class *)
-Lemma patched_differs_only_in_known : forall p ds, digits ds ->
-  (process_raw_patched p ds = process_raw p ds <-> Known_C06_lit p ds = false).
+Lemma repair_differs_only_in_known : forall p ds, digits ds ->
+  (process_raw p ds = process_raw_old p ds <-> Known_C06_lit p ds = false).
 Proof.
-  intros p ds Hd. rewrite (process_raw_spec p ds Hd), (process_raw_patched_spec p ds Hd).
+  intros p ds Hd. rewrite (process_raw_old_spec p ds Hd), (process_raw_spec p ds Hd).
   unfold Known_C06_lit. destruct p; simpl; cmp_cases; simpl; split; intros H';
     try reflexivity; try discriminate; try lia.
 Qed.
